@@ -285,6 +285,52 @@ func (m *Model) RunTokPos(s *Sink, rule string) {
 				} else {
 					s.OK(rule, key, m.InstrPos(c), "every path to the call passes tokenBegins (directly or through a callee that begins the token before reading)")
 				}
+				// (f) when the token's text is what a reader returned, the token is complete when the reader returns:
+				// whatever is read between the reader's return and newToken extends the token's range beyond its text
+				{
+					lit := c.Call.Args[2]
+					if ex, isEx := lit.(*ssa.Extract); isEx {
+						lit = ex.Tuple
+					}
+					if rc, isCall := lit.(*ssa.Call); isCall && rc.Call.StaticCallee() != nil && consumerCI.may[rc.Call.StaticCallee()] && rc.Parent() == fn {
+						k3 := fmt.Sprintf("%s|newToken(%s) follows its reader directly", fnKey(fn), tt)
+						ctxf := m.Ctx(fn)
+						before := func(a, b ssa.Instruction) bool { // can a execute before b?
+							if a.Block() == b.Block() {
+								for _, x := range a.Block().Instrs {
+									if x == a {
+										return true
+									}
+									if x == b {
+										break
+									}
+								}
+								return ctxf.reach[a.Block()][a.Block()]
+							}
+							return ctxf.reach[a.Block()][b.Block()]
+						}
+						var between ssa.Instruction
+						for _, bb := range fn.Blocks {
+							for _, x := range bb.Instrs {
+								xc, isXC := x.(*ssa.Call)
+								if !isXC || x == ssa.Instruction(rc) || x == ssa.Instruction(c) || xc.Call.StaticCallee() == nil {
+									continue
+								}
+								if sc := xc.Call.StaticCallee(); sc != readChar && !consumerCI.may[sc] {
+									continue
+								}
+								if before(rc, x) && before(x, c) && !before(x, rc) {
+									between = x
+								}
+							}
+						}
+						if between != nil {
+							s.Violation(rule, k3, m.InstrPos(between), "%s reads more input (%s) after %s returned the token's text and before newToken: the token's range then covers characters that are not part of it (blanks, the next token's start), so a cursor there is taken to be on this token and the next token starts late", fnKey(fn), valueDesc(between.(ssa.Value)), canonFnName(rc.Call.StaticCallee()))
+						} else {
+							s.OK(rule, k3, m.InstrPos(c), "nothing is read between the return of %s and newToken", canonFnName(rc.Call.StaticCallee()))
+						}
+					}
+				}
 				// (e) newToken ends a token on the PREVIOUS character (unless EOF): that is the token's last character only
 				// if the token's characters were read. A path to newToken on which nothing can have been read ends the
 				// token before its start — on the previous line when the token starts a line.
